@@ -44,7 +44,7 @@ PROPS = ["C04_dim_is_shape", "C04_xls_sheet_dim", "C04_bytes_stream", "C04_metad
          "C04_props_unchanged_epub_refuted", "C04_props_unchanged_html_meta",
          "C04_props_unchanged_rtf", "C04_props_unchanged_rtf_refuted", "C04_rtf_simple_utf8able", "C04_rtf_simple_utf8able_refuted",
          "C04_rtf_simple_raises_only_digits", "C04_rtf_simple_total_refuted", "C04_props_summary_ole", "C04_xls_summary_total",
-         "C04_xls_summary_total_refuted", "C04_props_unchanged_xlsx"]
+         "C04_xls_summary_total_refuted", "C04_props_unchanged_xlsx", "C04_archive_member_metadata"]
 INST = ["C04_odf_overflow_unguarded", "C04_rtf_tables_wf", "C04_rtf_surrogate_unrepaired",
         "C04_rtf_ctypes_wf", "C04_image_decls", "C04_archive_member_path"]
 INST_FIXED = ["C04_odf_guarded", "C04_odf_overflow_witness", "C04_rtf_repaired", "C04_rtf_surrogate_witness", "C04_path_guarded",
@@ -74,6 +74,14 @@ HOSTILE_VALUES = [
     "line1\nline2", "  padded  ", " Z ", "\U0001f600 emoji \U0001d11e", "\U0001f600", "\U0001d538Z", "x" * 3000 + "Z", "Z" + "y" * 5000, "\u00e9",
     "\u00c5ngstr\u00f6m Z", "trailing slash/", "[brackets]", "(paren)", "100%", "#hash", "?", "-dash-", "_under_", "None", "null", "true",
     "UPPER", "lower", "MiXeD cAsE Z", "\u2003em-spaced\u2003", "\ufeffbom", "a\u00a0b", "1e10", "1.0", "0x1F", "=formula()", "\u202eRTL",
+]
+
+
+# free text that ends up in captions, titles, names: strings that are not valid regular expressions, printf / str.format
+# templates, glob patterns, escapes — whatever a "smarter" matching or formatting routine would choke on
+HOSTILE_LABELS = [
+    "Figure 1", "Umsatz (in Mio. EUR", "Budget [draft", "a*b**2", "C:\\q4", "50% off? (yes", "{0} %s %(x)s", "\\", "[", "(?P<n>", "*", "+1", "$^",
+    "a|b", "\\1", "{", "}{", "x{2,1}", "\x00", "'\"", "<b>&amp;", "%", "%d", "{name}", "??", "(", ")", "[a-", "\\Z", "**", "caf\u00e9 (1", "\U0001f600)",
 ]
 
 
@@ -948,15 +956,17 @@ def exercise(ctx, r, origin, path_arg, replay, utf8_key=None, check_size=True, s
         table(t)
     ok, md = call(r, "get_metadata")
     if ok and path_arg is not ...:
-        got = (md.filename, md.file_extension, md.folder_path)
+        got = (md.filename, md.file_extension, md.folder_path, md.file_path)
         if path_arg is None:
-            want = (None, None, None)
+            want = (None, None, None, None)
         else:
             name, ext, full, par = spec_path(str(path_arg))
             e_, r_ = fs_record(str(Path(str(path_arg)).parent))
-            want = (name, ext, r_ if e_ else par)
+            e2, r2 = fs_record(str(Path(str(path_arg))))
+            want = (name, ext, r_ if e_ else par, r2 if e2 else full)
         if got != want:
-            bad("path-metadata", f"{cls}.get_metadata", f"path argument {str(path_arg)!r:.80}: {got!r:.160} expected {want!r:.160}")
+            bad("path-metadata", f"{cls}.get_metadata", f"path argument {str(path_arg)!r:.80}: (filename, extension, folder_path, file_path) = "
+                f"{got!r:.200} expected {want!r:.200}")
     call(r, "to_json")
     ctx.case((origin, cls, n_acc), n_acc > 1, kind=f"sweep:{origin.split(':')[0]}:{cls}")
 
@@ -1070,10 +1080,119 @@ def rewrite_zip(src: Path, repl: dict) -> bytes:
     return out.getvalue()
 
 
+def run_label_docs(ctx, s2t, res):
+    """Free-text labels (frame names, picture titles, alt texts) of ODF documents with headings drawn from HOSTILE_LABELS:
+    every accessor must keep working.  Sampled: each label once as name+title+desc of all frames of headings.odt /
+    image_extraction.odt / .odp, with a paragraph mentioning the label."""
+    from xml.sax.saxutils import escape, quoteattr
+    for rel, reader in (("open_office/headings.odt", s2t.read_odt), ("open_office/image_extraction.odt", s2t.read_odt),
+                        ("open_office/image_extraction.odp", s2t.read_odp)):
+        src = res / rel
+        if not src.exists():
+            continue
+        for k, label in enumerate(HOSTILE_LABELS):
+            if "\x00" in label:
+                continue    # not XML
+
+            def sub(d, label=label):
+                x = d.decode("utf-8")
+                x = re.sub(r'draw:name="[^"]*"', lambda m: "draw:name=" + quoteattr(label), x)
+                x = re.sub(r"<svg:title>.*?</svg:title>|<svg:desc>.*?</svg:desc>", "", x, flags=re.S)
+                x = re.sub(r"(<draw:image\b[^>]*/>)", lambda m: m.group(1) + f"<svg:title>{escape(label)}</svg:title><svg:desc>{escape(label)} alt</svg:desc>", x)
+                x = re.sub(r"(<draw:image\b[^>]*>)(?!<svg:title>)(.*?</draw:image>)", lambda m: m.group(1) + m.group(2) +
+                           f"<svg:title>{escape(label)}</svg:title><svg:desc>{escape(label)} alt</svg:desc>", x, flags=re.S)
+                x = x.replace("</office:text>", f'<text:h text:outline-level="1">About {escape(label)}</text:h>'
+                              f"<text:p>See {escape(label)} for details; {escape(label)}0 is something else.</text:p></office:text>", 1)
+                return x.encode("utf-8")
+            try:
+                data = rewrite_zip(src, {"content.xml": sub})
+                results = list(reader(io.BytesIO(data), path=None))
+            except Exception:  # noqa
+                ctx.count("hostile:rejected")
+                continue
+            for r in results:
+                exercise(ctx, r, f"hostile-labels:{Path(rel).name}", None,
+                         {"base_file": rel, "label": label, "how": "draw:name, svg:title and svg:desc of every frame in content.xml set to "
+                          "the label; a heading and a paragraph mentioning the label appended", "call": reader.__name__})
+
+
+def run_archives(ctx, s2t, res):
+    """Generated ZIP / TAR / TAR.GZ archives whose member names come from a hostile grammar (relative, ./, nested, //,
+    ABSOLUTE, unicode, spaces, '!' inside) x archive path arguments: the metadata of every member result is that of the
+    path argument  <archive path>!/<member name>  (file system recorded at call time)."""
+    import tarfile
+    from sharepoint2text.parsing.extractors.archive_extractor import read_archive
+    members = ["notes/readme.txt", "./docs/guide.md", "/srv-c04/reports/summary.txt", "/top-c04.csv", "a//b.txt", "deep/er/est/x.json",
+               "sp ace/na me.txt", "\u00fcml\u00e4ut/\u4e2d.txt", "bang!/in!side.txt", "dot.dir/.hidden.txt", "x.tar.gz.txt", "//double.txt",
+               "plain.txt", "trailing./dots..txt", "C:\\win\\style.txt"]
+    apaths = [None, "bundle.zip", "rel/dir/bundle.zip", "/abs/nowhere/bundle.tar", str(res / "archives" / "test_archive.zip"),
+              "\u00fcber/b\u00fcndel.zip", "a b/c d.zip", "outer.zip!/inner.zip"]
+    rng = ctx.rng
+    cterms, cinfos = [], []
+    for kind in ("zip", "tar", "tar.gz"):
+        names = members if ctx.tier == "thorough" else rng.sample(members, 9) + ["/srv-c04/reports/summary.txt", "notes/readme.txt"]
+        names = list(dict.fromkeys(names))
+        payload = {n: f"member-{i}-{kind} unique text" for i, n in enumerate(names)}
+        buf = io.BytesIO()
+        if kind == "zip":
+            with zipfile.ZipFile(buf, "w", zipfile.ZIP_DEFLATED) as z:
+                for n in names:
+                    z.writestr(zipfile.ZipInfo(n), payload[n])
+        else:
+            with tarfile.open(fileobj=buf, mode="w:gz" if kind.endswith("gz") else "w") as tf:
+                for n in names:
+                    ti = tarfile.TarInfo(n)
+                    ti.size = len(payload[n].encode())
+                    tf.addfile(ti, io.BytesIO(payload[n].encode()))
+        data = buf.getvalue()
+        for ap in apaths:
+            ap_arg = None if ap is None else ap + ("" if ap.endswith("inner.zip") else "")
+            try:
+                results = list(read_archive(io.BytesIO(data), path=ap_arg))
+            except Exception as e:  # noqa
+                ctx.count("archive:rejected")
+                continue
+            by_text = {}
+            for r in results:
+                try:
+                    by_text[r.get_full_text().strip()] = r
+                except Exception:  # noqa
+                    pass
+            for n in names:
+                r = by_text.get(payload[n])
+                if r is None:
+                    ctx.count("archive:member-not-extracted")     # confinement / skip rules are C09's
+                    continue
+                arg = n if ap_arg is None else f"{ap_arg}!/{n}"
+                ctx.case(("archive-member", kind, ap_arg, n), True, kind="archive-member:" + kind)
+                try:
+                    md = r.get_metadata()
+                    pa = Path(arg)
+                    fs = {q: fs_record(q) for q in (str(pa), str(pa.parent))}
+                    so = lambda x: coq_opt(x, cstr)
+                    fsl = coq_list([pair(cstr(q), pair(coq_opt(e_, coq_bool), cstr(r_))) for q, (e_, r_) in fs.items()])
+                    cterms.append(pair("(Some " + cstr(arg) + ")", fsl, "(Some " + pair(so(md.filename), so(md.file_extension),
+                                                                                     so(md.file_path), so(md.folder_path)) + ")"))
+                    cinfos.append((kind, ap_arg, n))
+                except Exception:  # noqa  (reported by the sweep below)
+                    pass
+                exercise(ctx, r, f"archive-member:{kind}", arg,
+                         {"archive_kind": kind, "archive_path": ap_arg, "member_name": n, "path_argument_of_member": arg,
+                          "call": "read_archive(io.BytesIO(archive), path=archive_path); archive = " + kind + " with the members "
+                                  + repr(names)[:400]})
+
+
+    return cterms, cinfos
+
+
 def run_hostile_docs(ctx):
     """Generated hostile-content documents: huge ODF lengths, control characters, stored document properties."""
     import sharepoint2text as s2t
     res = common.REPO / "sharepoint2text" / "tests" / "resources"
+    run_label_docs(ctx, s2t, res)
+    cterms, cinfos = run_archives(ctx, s2t, res)
+    corr(ctx, "archive_member_path", "(path_case path_guard)", cterms, cinfos,
+         "option str * list (str * (option bool * str)) * option (option str * option str * option str * option str)")
     huge = [("9" * 400 + "cm", "400-digit-cm"), ("1" + "0" * 308 + "in", "1e308-in"), ("9" * 5000, "5000-digit"), ("0.0cm", "zero"),
             ("12e3cm", "exponent"), ("-3cm", "negative"), ("\u0663cm", "arabic-digit"), ("", "empty"), ("1.5 furlong", "unknown-unit")]
     odfs = [("open_office/image_extraction.odt", s2t.read_odt), ("open_office/image_extraction.odp", s2t.read_odp),
@@ -1678,7 +1797,18 @@ def run_generic_instances(ctx):
     rng = ctx.rng
     classes = {n: c for n, c in vars(dt).items() if isinstance(c, type) and dataclasses.is_dataclass(c)
                and c.__module__ == dt.__name__ and not getattr(c, "_is_protocol", False)}
-    strs = ["", "x", "Hello World", " padded ", "\u00fc\u4e2d\U0001f600", "a\nb", "\x00\x01", "10cm", "9" * 400 + "cm", "png"]
+    base_strs = ["", "x", "Hello World", " padded ", "\u00fc\u4e2d\U0001f600", "a\nb", "\x00\x01", "10cm", "9" * 400 + "cm", "png"]
+    strs = list(base_strs)
+
+    def new_pool():
+        """Per instance: a few labels and texts that mention them, so that caption/description/name fields and the
+        unit / paragraph texts of ONE instance refer to each other (the matching branches of iterate_units run)."""
+        labels = rng.sample(HOSTILE_LABELS, 3)
+        pool = list(labels) + [f"See {labels[0]} for the numbers.", f"{labels[1]}0 and more", "Heading " + labels[2], "plain words",
+                               # a body text with heading-like lines (legacy DOC units are cut at such lines)
+                               f"Chapter 1\nSee {labels[0]} for the numbers.\nSection 1.1\n{labels[1]} is shown below\nIntro\n{labels[2]}0\n",
+                               f"Chapter 1\nSee {labels[0]} for the numbers.\nSection 1.1\n{labels[1]} is shown below\nIntro\n{labels[2]}0\n"]
+        return pool + rng.sample(base_strs, 3)
 
     def of(h, depth):
         if h is typing.Any:
@@ -1690,7 +1820,7 @@ def run_generic_instances(ctx):
         if h is bool:
             return rng.random() < 0.5
         if h is int:
-            return rng.choice([1, 2, 3, 7, 1024])
+            return rng.choice([1, 1, 2, 2, 3, 7, 1024])
         if h is float:
             return rng.choice([0.0, 1.5, 72.0])
         if h is bytes:
@@ -1701,7 +1831,7 @@ def run_generic_instances(ctx):
             return b
         origin, args = typing.get_origin(h), typing.get_args(h)
         if origin in (list, typing.List):
-            return [of(args[0] if args else typing.Any, depth + 1) for _ in range(0 if depth >= 3 else rng.randrange(3))]
+            return [of(args[0] if args else typing.Any, depth + 1) for _ in range(0 if depth >= 3 else rng.randrange(5 if depth == 0 else 3))]
         if origin in (dict, typing.Dict):
             return {rng.choice(["a", "b", "c"]): of(args[1] if len(args) > 1 else typing.Any, depth + 1) for _ in range(rng.randrange(3))}
         if origin is tuple:
@@ -1728,7 +1858,8 @@ def run_generic_instances(ctx):
     results = [c for c in classes.values() if hasattr(c, "iterate_units") and hasattr(c, "get_full_text")]
     made = 0
     for c in results:
-        for k in range(ctx.n(6, 40)):
+        for k in range(ctx.n(40, 300)):
+            strs[:] = new_pool() if k % 4 else base_strs
             try:
                 r = inst(c, 0)
             except Exception:  # noqa  (constructor constraints are not part of the interface)
